@@ -20,6 +20,7 @@ import RbV.Thm.GenSrcPoaAdd
 import RbV.Thm.GenSrcPoaAlign
 import RbV.Thm.GenSrcPoaScore
 import RbV.Thm.GenSrcPoaConsensus
+import RbV.Thm.GenSrcPoaHistory
 /-!
 # C16 — partial-order alignment: exact on linear graphs, graph stays a growing DAG
 
@@ -550,7 +551,7 @@ theorem poa_custom_source_score_eq_model (sc : Sc) (xp xs yp ys : Int) (g : Poa.
     ∃ tb, RbV.Gen.SrcPoaAlign.custom sc.w g sc.gap xp xs yp ys query = Rs.Res.ok tb ∧ tb.last = t.last ∧ tb.cols = t.n ∧
       (∃ c, RbV.Gen.SrcPoaAlign.Traceback_get tb (tb.last + 1) tb.cols = Rs.Res.ok c ∧ c.score = t.score) ∧
       ∀ a, RbV.Gen.SrcPoaAlign.Traceback_alignment tb = Rs.Res.ok a → a.score = t.score := by
-  obtain ⟨tb, e, el, ec, _, c, hc, hs⟩ := RbV.Thm.GenSrcPoaScore.custom_score_eq_model sc xp xs yp ys g.labels g.es query t
+  obtain ⟨tb, e, el, ec, _, _, c, hc, hs⟩ := RbV.Thm.GenSrcPoaScore.custom_score_eq_model sc xp xs yp ys g.labels g.es query t
     (RbV.Thm.GenSrcPoaScore.graphOK_of_dag g ⟨hne, hwf, hac⟩) hm hn h
   refine ⟨tb, e, el, ec, ⟨c, hc, hs⟩, ?_⟩
   intro a ha
@@ -597,6 +598,53 @@ theorem poa_consensus_source_is_path (g : Poa.Model.G)
 
 example : RbV.Gen.SrcPoaConsensus.consensus { labels := [65, 67, 71, 84], es := [(0, 1, 2), (1, 2, 2), (0, 3, 1), (3, 2, 1)] } =
     Rs.Res.ok [65, 67, 71] := by decide +kernel
+
+/-- **the operation list of the translated `Traceback::alignment` is the traceback over the table's own cells**, and that
+table is *local* for whatever the `max`es kept (hard, tie-independent): whenever the translated `alignment` returns, its
+operations are `Model.traceF` over `getP` (= the translated `get`, totalised); and for every non-empty well-formed DAG,
+scoring, clip penalties and non-empty query with `customTableC = some t`, the table the translated `custom` returns
+satisfies `Model.OpsOK` (a cell points into its own row, to the row of a predecessor, to row 0, down column 0, or —
+suffix clips — out of the last row). -/
+theorem poa_alignment_source_is_traceback_of_local_table (sc : Sc) (xp xs yp ys : Int) (g : Poa.Model.G) (query : List Nat)
+    (t : Poa.Model.BTable)
+    (hne : g.labels ≠ []) (hwf : ∀ e ∈ g.es, e.1 < g.labels.length ∧ e.2.1 < g.labels.length)
+    (hac : ∀ v, ¬ Reach (plain g.es) v v)
+    (hm : g.labels.length + 1 < 2 ^ 64) (hn : query.length + 1 < 2 ^ 64) (hq : 0 < query.length)
+    (h : Poa.Model.customTableC sc xp xs yp ys g.labels g.es query = some t) :
+    ∃ tb, RbV.Gen.SrcPoaAlign.custom sc.w g sc.gap xp xs yp ys query = Rs.Res.ok tb ∧
+      Poa.Model.OpsOK g.es t.last (RbV.Thm.GenSrcPoaHistory.opAtS tb.matrix) ∧
+      ∀ a, RbV.Gen.SrcPoaAlign.Traceback_alignment tb = Rs.Res.ok a →
+        a.operations = Poa.Model.traceF (RbV.Thm.GenSrcPoaHistory.opAtS tb.matrix) ((tb.rows + 3) * (tb.cols + 3))
+          (tb.last + 1) tb.cols [] := by
+  obtain ⟨tb, e, _, _, _, hO, _⟩ := RbV.Thm.GenSrcPoaScore.custom_score_eq_model sc xp xs yp ys g.labels g.es query t
+    (RbV.Thm.GenSrcPoaScore.graphOK_of_dag g ⟨hne, hwf, hac⟩) hm hn h
+  exact ⟨tb, e, RbV.Thm.GenSrcPoaHistory.opsOK_of_oinv g.es t.last tb.matrix (hO hq),
+    fun a ha => RbV.Thm.GenSrcPoaHistory.alignment_partial tb a ha⟩
+
+/-- **after any history of translated alignments and additions the graph is a DAG that only grew** (hard, tie-independent;
+supersedes `…_partial`).  A step = translated `Poa::custom` (any clip penalties: `global` / `semiglobal` / `local` /
+`custom`) → translated `Traceback::alignment` → translated `Poa::add_alignment`.  From any non-empty well-formed DAG `g0`
+(e.g. `chainG x`), for every list of steps with `HistOK` (on exactly the graphs that occur: non-empty query, sizes below
+`2^64 − 1`, `customTableC ≠ none` = no `i32` overflow): whenever the history returns `g`, then `g` is a non-empty
+well-formed DAG and extends `g0` (no label / edge removed, no total weight decreased).  Still missing: that the history
+*does* return (no panic of `alignment` / `add_alignment` on these lists: column tracking for `seq[i]`, weight `+ 1`
+overflow), node growth `≤ |query|` at source level (`ColsOK` of the source table), `global_banded` steps. -/
+theorem poa_history_source_acyclic_only_grows (g0 g : Poa.Model.G) (steps : List RbV.Thm.GenSrcPoaHistory.HS)
+    (hne : g0.labels ≠ []) (hwf : ∀ e ∈ g0.es, e.1 < g0.labels.length ∧ e.2.1 < g0.labels.length)
+    (hac : ∀ v, ¬ Reach (plain g0.es) v v)
+    (hok : RbV.Thm.GenSrcPoaHistory.HistOK g0 steps)
+    (h : RbV.Thm.GenSrcPoaHistory.srcHistory g0 steps = Rs.Res.ok g) :
+    g.labels ≠ [] ∧ (∀ e ∈ g.es, e.1 < g.labels.length ∧ e.2.1 < g.labels.length) ∧
+    (∀ v, ¬ Reach (plain g.es) v v) ∧ Extends g0.labels g0.es g.labels g.es := by
+  obtain ⟨hd, hg⟩ := RbV.Thm.GenSrcPoaHistory.history_dag steps g0 g ⟨hne, hwf, hac⟩ hok h
+  exact ⟨hd.ne, hd.wf, hd.acyclic, hg.extends⟩
+
+-- non-vacuity: a two-step history of translated steps (global, then local) from the chain `ACG` returns
+example : (match RbV.Thm.GenSrcPoaHistory.srcHistory (Poa.Model.chainG [65, 67, 71])
+      [(exSc, (Poa.Model.minScore, Poa.Model.minScore, Poa.Model.minScore, Poa.Model.minScore), [65, 84, 71]),
+       (exSc, (0, 0, 0, 0), [84, 71, 71])] with
+    | .ok g => decide (4 ≤ g.labels.length)
+    | _ => false) = true := by decide +kernel
 
 /-- **`Traceback::get` as translated = `BRow.get` of the mirror** on every row that represents a model row (`RowRep`: same
 band, cells equal up to the `MIN_SCORE` padding `new_row` allocates), with its three out-of-band answers -/
